@@ -23,6 +23,17 @@ def case_list(seed, count, tier):
         op = rnd.choice(["enum", "enum", "partial", "min", "max"])
         var = rnd.randrange(len(model["idx"]))
         cases.append({"kind": "random", "model": model, "cfg": cfg, "op": op, "var": var, "stop": rnd.randint(1, 4)})
+    # large planted models (arity up to 14), partially fixed so that the interpreted run stays short: both modes and every
+    # history must agree on them too
+    from framework.props import bigrun
+
+    for _ in range(8 if tier == "quick" else 60):
+        model, plant = bigrun.gen_big(rnd, {"max_vars": 16})
+        sub = bigrun.restrict(model, plant, rnd, rnd.randint(3, 6))
+        cfg = {"calg": rnd.choice(["bc", "bc", "shaving"]), "vh": rnd.choice(["first", "smallest", "greatest"]),
+               "dh": rnd.choice(["min", "max", "mid", "split_low"])}
+        cases.append({"kind": "random", "model": sub, "cfg": cfg, "op": rnd.choice(["partial", "partial", "min", "max"]),
+                      "var": rnd.randrange(len(sub["idx"])), "stop": rnd.randint(1, 25), "large": True})
     # searches that use the whole choice-point stack, at the heights next to the limits of the 8-bit stack pointer:
     # both modes must agree, including on the error raised when the stack is full
     for h, n in ((16, 14), (16, 15), (16, 17), (128, 127), (128, 130), (254, 252), (254, 253), (254, 260)):
